@@ -187,6 +187,8 @@ UNITS['c13l'] = {
 UNITS['c11t'] = {
     'template': 'contracts/c11t.vrs',
     'mutants': [
+        ('start_takes_the_last_child_with_a_token', 'while __k < __ch.len() && __r.is_none()', 'while __k < __ch.len()', ['C11.noderef.start']),
+        ('end_scans_from_the_second_to_last_child', 'let mut __k: usize = __ch.len(); while __k > 0 && __r.is_none()', 'let mut __k: usize = if __ch.len() > 0 { __ch.len() - 1 } else { 0 }; while __k > 0 && __r.is_none()', ['C11.noderef.end']),
         ('node_span_ends_where_the_last_token_starts', 'Some(Span::new(s.locator().clone(), s.start()..e.end()))', 'Some(Span::new(s.locator().clone(), s.start()..e.start()))', ['C11.noderef.span']),
         ('token_child_becomes_an_error_node', 'ParserMatch::Token(t) => self.tree.new_node(SyntaxNode::new(SyntaxTrunk::Leaf(t))),', 'ParserMatch::Token(t) => self.tree.new_node(SyntaxNode::new(SyntaxTrunk::Error)),', ['C11.compose_node']),
         ('empty_compose_builds_a_node', 'if children.is_empty() { return ParserMatch::Syntax(kind); }', '', ['C11.compose']),
